@@ -510,6 +510,40 @@ where
     }
 }
 
+// ---- by-value conversions (separately written bodies: `From<Bvd> for Bv`, `From<Bv> for Bvd`, `From<Bvf> for …`, `TryFrom<Bvd|Bv> for Bvf`) ----
+#[inline(never)]
+fn convv_src<S: Sub>(ttag: &str, a: &[&str]) -> String
+where
+    Bv: From<S>,
+    Bvd: From<S>,
+{
+    let x = S::parse(a[1]);
+    match ttag {
+        "A" => ok1(Bv::from(x).dump()),
+        "D" => ok1(Bvd::from(x).dump()),
+        t => panic!("convertv target {t}"),
+    }
+}
+#[inline(never)]
+fn convv_tgt<T: Sub>(stag: &str, a: &[&str]) -> String
+where
+    T: TryFrom<Bvd> + TryFrom<Bv>,
+    <T as TryFrom<Bvd>>::Error: std::fmt::Debug,
+    <T as TryFrom<Bv>>::Error: std::fmt::Debug,
+{
+    match stag {
+        "D" => match T::try_from(Bvd::parse(a[1])) {
+            Ok(v) => ok1(v.dump()),
+            Err(e) => format!("err {:?}", e),
+        },
+        "A" => match T::try_from(Bv::parse(a[1])) {
+            Ok(v) => ok1(v.dump()),
+            Err(e) => format!("err {:?}", e),
+        },
+        t => panic!("convertv source {t}"),
+    }
+}
+
 #[inline(never)]
 fn cmpall<L: Sub, R: Sub>(a: &[&str]) -> String
 where
@@ -661,7 +695,7 @@ fn bitconv(a: &[&str]) -> String {
         let back: $u = <$u>::from(b);
         let as_bool: bool = bool::from(b);
         let from_bool: Bit = Bit::from(as_bool);
-        format!("ok {} n:{} {} {}", tok_bit(b), back as u128, tok_bool(as_bool), tok_bit(from_bool))
+        format!("ok {} n:{} {} {} {}", tok_bit(b), back as u128, tok_bool(as_bool), tok_bit(from_bool), chars_token(&format!("{}", b)))
     }}}
     match w { 8 => one!(u8), 16 => one!(u16), 32 => one!(u32), 64 => one!(u64), 128 => one!(u128), 65 => one!(usize), _ => panic!("width") }
 }
@@ -671,6 +705,10 @@ fn exec(t: &[&str]) -> String {
     let a = &t[2..];
     match op {
         "bitconv" => bitconv(a),
+        "errdisplay" => {
+            let e = if a[0] == "cap" { bva::ConvertionError::NotEnoughCapacity } else { bva::ConvertionError::InvalidFormat(a[1].parse().unwrap()) };
+            format!("ok {} {}", chars_token(&format!("{}", e)), chars_token(&format!("{:?}", e)))
+        }
         "fmtspec" => for_types!(d1!(ty_tag(a[0]), fmtspec, (a))),
         "add" | "sub" | "mul" | "div" | "rem" | "and" | "or" | "xor" | "shl" | "shr" | "not" => ops_exec::exec(t),
         "zeros" | "ones" | "repeat" | "with_capacity" | "from_binary" | "from_hex" | "from_bytes" | "read" | "collect" => {
@@ -690,6 +728,14 @@ fn exec(t: &[&str]) -> String {
         "convert" => {
             let rt = ty_tag(a[1]);
             for_types!(d1!(a[0], with_arg_l1, (rt, op, a)))
+        }
+        "convertv" => {
+            let st = ty_tag(a[1]);
+            if a[0] == "A" || a[0] == "D" {
+                for_types!(d1!(st, convv_src, (a[0], a)))
+            } else {
+                for_types!(d1!(a[0], convv_tgt, (st, a)))
+            }
         }
         "cmpall" => {
             let (lt, rt) = (ty_tag(a[0]), ty_tag(a[1]));
